@@ -89,3 +89,8 @@ claim("C13", "model_checking",
       "schemdraw geometry; drawings with two names on one node are not driven; at/to placement is not driven (plain schemdraw source symbols ignore .to())",
       "explicit-state exploration of placement programs on the implementation with a union-find reference model",
       "DESIGN.md section 4 C13")
+claim("C15", "model_checking",
+      "Explicit exploration on the real code: (1) every filling of the 2x2 lattice with persistable symbols and every persistable symbol kind (both directions, both reversal flags, degree/sine options) is built, serialised to JSON and reloaded; the search follows reload-of-reload (at least three cycles, until the canonical translation repeats) and after every cycle components, values, terminal order, connectivity up to renaming, reference node and solution must equal the original's, whose own translation is first validated with the C13 reference; (2) every declarative list of the stated family (every direction, place_after option and length) and every kind of the handler table is built by create_schematic and compared with the union-find reference of the equivalent placement program; the input dictionary must be unchanged.",
+      "schemdraw geometry; JSON only (the statement does not cover YAML)",
+      "explicit-state exploration of save/load cycles and declarative programs on the implementation with a reference model",
+      "DESIGN.md section 4 C15")
